@@ -10,7 +10,7 @@
 -/
 import Cog.Sem.WidenDen
 import Cog.Sem.WidenEnum
-namespace Cog.Sem
+namespace Cog.Sem.Src
 open Cog.IR Cog.Passes
 
 /-- passes proved to be the identity on `Plain` schema sets -/
@@ -134,4 +134,4 @@ theorem widen_chain (ps : List PassId) (hok : plainChainOK ps = true) (S S' : Sc
     refine ⟨hP', fun n t j ht hs => ?_⟩
     exact hden n t j (xdenF_den (nrS S1) hP2 n t j ht (nr_widen S1 hP n t j ht hs))
 
-end Cog.Sem
+end Cog.Sem.Src
